@@ -4,9 +4,10 @@ Line-protocol driver for the C19 correspondence: evaluates the definitions of
 `SpecVerif.C19` that the theorems of `Props/C19.lean` are about.
 
 Input, one case per line:
-  run D <n> (<A|F|P> <default|_> <factory> <repr> <compare>)^n M <k> <id>^k U <j> <id>^j N <origNew> <parentNew> | <inst|meta|fields>* | <tid>*
+  run D <n> (<A|F|P> <default|_> <factory> <repr> <compare>)^n M <k> <id>^k U <j> <id>^j N <origNew> <parentNew> | <inst|meta|fields|sub1|sub0>* | <tid>*
+    (sub1 / sub0: instantiate through a subclass with its own `__new__` that hands the arguments on / does not)
   eager D ... N .. ..      (the sequential eager result of the same body)
-Output of `run`:  <tid>:<label>* ;; T<i>=<pc>/<obs|-> ... ;; <class> ;; boots=<n> lock=<_|tid>
+Output of `run`:  <tid>:<label>* ;; T<i>=<pc>/<obs|-> k=[<sub|orig|synthesized|parent>:<args>,..] ... ;; <class> ;; boots=<n> lock=<_|tid>
 Output of `eager`: <class core>
 Obs / class syntax: m=<[d:f:r:c,..]|_> f=<1|0> d=[<D|v|_>,..] g=[ids] n=<wrapper|orig|synthesized|inherited>
 -/
@@ -64,15 +65,24 @@ def showObs (o : Obs) : String :=
   s!"m={showInfos o.mdata} f={if o.fields.isSome then (if o.fields == o.mdata then 1 else 2) else 0} d=[{",".intercalate (o.decls.map showDecl)}] g=[{",".intercalate (o.methods.map toString)}] n={showNew o.new}"
 def showPC : PC → String
   | .start => "start" | .lookup => "lookup" | .acqB => "acqB" | .recheck => "recheck" | .boot k => s!"boot{k}" | .relB => "relB"
+  | .superNew => "superNew" | .dispatch => "dispatch"
   | .reread => "reread" | .acqN => "acqN" | .checkNew => "checkNew" | .swapNew => "swapNew" | .relN => "relN"
   | .observe => "observe" | .done => "done"
 def showLabel : Label → String
+  | .superNew => "supernew" | .dispatch => "dispatch"
   | .call => "call" | .lookup => "lookup" | .acquire => "acquire" | .recheck => "recheck" | .release => "release"
   | .reread => "reread" | .checkNew => "checknew" | .swapNew => "swap" | .observe => "observe"
   | .act (.readDecl a) => s!"read:{a}" | .act (.consumeDecl a) => s!"consume:{a}"
   | .act .publishMeta => "pubmeta" | .act .publishFields => "pubfields" | .act (.setMethod g) => s!"set:{g}"
 
-def parseTrig (s : String) : Trigger := if s == "meta" then .mdata else if s == "fields" then .fields else .inst
+def parseTrig (s : String) : Trigger :=
+  if s == "meta" then .mdata else if s == "fields" then .fields
+  else if s == "sub1" then .instSub true else if s == "sub0" then .instSub false else .inst
+
+def showFn : NewFn → String
+  | .sub => "sub" | .orig => "orig" | .synthesized => "synthesized" | .parent => "parent"
+def showNews (l : List NewCall) : String :=
+  "[" ++ ",".intercalate (l.map fun x => s!"{showFn x.fn}:{if x.args then 1 else 0}") ++ "]"
 
 /-- `runSched`, additionally collecting the labels of the steps taken -/
 def runLabels (b : Body) (trig : Nat → Trigger) : Config → List Nat → List String → Config × List String
@@ -94,7 +104,7 @@ def handle (line : String) : String :=
       let same := (runSched b trig (Config.init b) sc).cls == c.cls
       let ths := (List.range tl.length).map (fun i =>
         let st := c.threads i
-        s!"T{i}={showPC st.pc}/{match st.obs with | none => "-" | some o => showObs o}")
+        s!"T{i}={showPC st.pc}/{match st.obs with | none => "-" | some o => showObs o} k={showNews (c.news i)}")
       (if same then "" else "!MISMATCH ") ++ " ".intercalate labels ++ " ;; " ++ " ".intercalate ths ++ " ;; " ++ showObs (snapshot c.cls)
         ++ s!" ;; boots={c.boots} lock={match c.lock with | none => "_" | some t => toString t}"
   | ["eager" :: body] =>
